@@ -59,7 +59,20 @@ TraceBand ==
                   \A j \in 1..n : near(Band(r.fnr_ci)[j], cf.fnr[j]) /\ near(Band(r.fpr_ci)[j], cf.fpr[j])>>}),
              DevKey(e, o))
 
-Next == TraceNew \/ TraceBand
+(* rule of three on LARGE classes (n = 700 .. 1e6, mostly easy samples), a one-point curve at a     *)
+(* threshold beyond every score: the band of the rate that is exactly 0 (1) is [0, 1 - alpha^(1/n)] *)
+(* ([alpha^(1/n), 1]).  Recorded in units of 1/n: wn6 = round(1e6 * n * width).                     *)
+TraceBandBig ==
+  /\ IsEvent("band_big") /\ UNCHANGED store
+  /\ LET e == Log[l]
+         want(n) == Tables.rootw6[ToString(e.alpha)][ToString(n)]
+     IN Report(e, Failing({
+          <<"C16.accepts_documented_arguments", e.exc = "">>,
+          <<"C16.rule_of_three_on_large_classes", e.exc # "" \/
+               (/\ Close(e.wn6_zero_side, want(e.n_zero), 3) /\ e.zero_side_starts_at_zero
+                /\ Close(e.wn6_one_side, want(e.n_one), 3) /\ e.one_side_ends_at_one)>>}), "")
+
+Next == TraceNew \/ TraceBand \/ TraceBandBig
 Spec == Init /\ [][Next]_vars
 AllConsumed == TLCGet("stats").diameter - 1 = Len(Log)
 =============================================================================
